@@ -238,13 +238,9 @@ class Engine:
                 v = None
                 m = self.get_model()
                 mv = m.eval(t, model_completion=True).as_long()
-                cands = []
-                if tried == 0:
-                    cands = [0, mv]
-                elif tried == 1:
-                    cands = [(1 << w) - 1, mv]
-                else:
-                    cands = [mv]
+                # deterministic, boundary-biased candidate order: 0, max, 1, max-1, 2, ... (then whatever the model says)
+                h = tried // 2
+                cands = [h if tried % 2 == 0 else ((1 << w) - 1 - h), mv]
                 for c in cands:
                     if c == mv:
                         v = c
